@@ -79,7 +79,7 @@ def run(ctx):
         scaled.append(dict(c, k=k, chunks=chunks))
     write_ndjson(ctx.path("scaled.ndjson"), scaled)
     # 4. end-to-end layouts sampled by TLC
-    nlay = 70 if ctx.quick else 1200
+    nlay = 70 if ctx.quick else 700
     cfg = ctx.path("lay.cfg")
     open(cfg, "w").write(f'CONSTANTS MaxLines = 5  Kinds = {{"e", "s", "l", "h", "q"}}  Sample = {nlay}\nSPECIFICATION Spec\nINVARIANTS Emit\n')
     r = tlc_must_pass(ctx, "files/BoundaryLayouts", cfg=cfg, workers=1, tag="lay", mode_args=["-seed", str(ctx.seed)], timeout=1200)
